@@ -328,7 +328,9 @@ def _eq_collide(rng, base_index):
     D_i its own doubling DAG of 2-tuples (equal, but no object shared, so no identity shortcut) and x_i different
     ints congruent modulo 2**61-1.  Hashing stays cheap; building the set compares every member with every earlier
     one and each comparison walks 2**levels leaves."""
-    levels, members = rng.choice([(14, 440), (16, 300), (18, 80)])
+    # sizes whose comparison work is far above the 12 s CPU budget wherever it is done at all (CPython's marshal does
+    # it for a file of the host's version): (18, 80) cost ~12.6 s there and its verdict flipped with machine load
+    levels, members = rng.choice([(16, 300), (16, 340), (18, 200)])
     idx = base_index
     out = []
     for i in range(members):
@@ -351,7 +353,10 @@ def _ref_bomb(rng, base_index, shape, plain=False):
     if shape == "ref_dag_leaf":
         # a DAG small enough for any node budget (2**n nodes) whose ONE leaf is expensive to hash: a long of
         # ~100000 bits (CPython rehashes all digits each time), a Python-2 unicode (hashed by Python code)
-        n = rng.choice([16, 20, 22, 22])
+        # (levels, bits of the long) are chosen so that CPython's own marshal - which a file of the host's version
+        # reaches - needs either <= 2 s or >= 30 s of CPU for them: nothing near the 12 s budget, whose verdict would
+        # then depend on machine load (the determinism self-test caught exactly that on a loaded machine)
+        n = rng.choice([16, 22, 22, 24])
         width = 2
         leaf = rng.choice(["long", "long", "long", "unicode", "bytes"])
     elif shape == "ref_dag":
@@ -364,7 +369,8 @@ def _ref_bomb(rng, base_index, shape, plain=False):
     extra_items = 0
     if leaf is not None:
         if leaf == "long":
-            parts.append(_marshal_long((1 << rng.choice([20000, 99000, 99000])) - 3, flag_ref=True))
+            bits = rng.choice([20000, 99000, 99000])
+            parts.append(_marshal_long((1 << (bits if n == 16 else 99000)) - 3, flag_ref=True))
         elif leaf == "unicode":
             txt = rng.choice([b"abc", b"x" * 40000])
             parts.append(bytes([ord("u") | 0x80]) + _i32(len(txt)) + txt)
